@@ -1,26 +1,69 @@
-"""Registry entries for the hand-written harnesses in harness/src/hand*.rs (the generated ones come from
-gen.py). Same record format as gen.registry.json."""
+"""Registry entries for the hand-written harnesses in harness/src/hand/*.rs, read from their doc comments:
 
+    /// @harness props=C07:Q,C20:T n=3 err=Cheap timeout=600 [expect_fail=1] [finding=F9]
+    /// @shape   <rendering of the grammar / scenario>
+    /// @symbolic <what is symbolic>            (optional, may repeat)
+    /// @assume  <assumption>                   (optional, may repeat)
+    /// @aims    <what it is aimed at>
+    pub fn NAME_body<S: Src>(s: &mut S) { .. }
 
-def H(fn, props, shape, n=3, unwind=10, timeout=600, family="hand", err="Cheap", symbolic=None, assumptions=None,
-      aims="", module="hand", expect_fail=False, notes=""):
-    return {
-        "harness": f"{module}::{fn}", "fn": fn, "family": family, "props": props, "N": n, "unwind": unwind,
-        "timeout_s": timeout, "error_type": err, "shape": shape,
-        "symbolic": symbolic or {"input": f"[u8; {n}] with symbolic length 0..={n}"},
-        "assumptions": assumptions or [f"input length <= {n}"], "perms": [0], "sampled": False, "aims": aims,
-        "notes": notes, "expect_fail": expect_fail,
-    }
+and the unwind bound from the module's `harnesses! { NAME [unwind] = NAME_body; }` list. Same record format as
+the generated registry."""
+import glob
+import os
+import re
 
+HERE = os.path.dirname(os.path.abspath(__file__))
+HAND = os.path.join(os.path.dirname(HERE), "harness", "src", "hand")
 
-Q, T = "quick", "thorough"
+TIER = {"Q": "quick", "T": "thorough"}
 
 
 def entries():
-    e = []
-    e.append(H("smoke", {"C01": Q}, "<(<(t0 t1)>#1 | <(t2 <t3?>)>#2)> <any>", unwind=12,
-               symbolic={"params": ["t0..t3: u8"], "input": "[u8; 3] with symbolic length 0..=3"},
-               aims="end-to-end smoke of the refsem-vs-chumsky mechanism"))
-    e.append(H("selftest_fail", {"SELFTEST": Q}, "(t0 t0) must never accept — deliberately false", n=2, unwind=6,
-               expect_fail=True, aims="runner self-test: failure path, playback extraction, native replay"))
-    return e
+    out = []
+    for path in sorted(glob.glob(os.path.join(HAND, "*.rs"))):
+        mod = os.path.basename(path)[:-3]
+        if mod == "mod":
+            continue
+        src = open(path).read()
+        unwinds = {m.group(1): int(m.group(2)) for m in re.finditer(r"^\s*([a-z0-9_]+) \[(\d+)\] = \1_body;", src, re.M)}
+        for m in re.finditer(r"((?:^///.*\n)+)pub fn ([a-z0-9_]+)_body<", src, re.M):
+            doc, fn = m.group(1), m.group(2)
+            if "@harness" not in doc:
+                continue
+            meta = {"shape": "", "aims": "", "symbolic": [], "assume": []}
+            kv = {}
+            for line in doc.splitlines():
+                line = line[3:].strip()
+                if line.startswith("@harness"):
+                    for tok in line.split()[1:]:
+                        k, v = tok.split("=", 1)
+                        kv[k] = v
+                elif line.startswith("@shape"):
+                    meta["shape"] += (" " if meta["shape"] else "") + line[6:].strip()
+                elif line.startswith("@aims"):
+                    meta["aims"] += (" " if meta["aims"] else "") + line[5:].strip()
+                elif line.startswith("@symbolic"):
+                    meta["symbolic"].append(line[9:].strip())
+                elif line.startswith("@assume"):
+                    meta["assume"].append(line[7:].strip())
+            assert fn in unwinds, f"{fn}: not listed in harnesses! of {path}"
+            props = {}
+            for pt in kv["props"].split(","):
+                p, t = pt.split(":")
+                props[p] = TIER[t]
+            n = int(kv.get("n", 3))
+            out.append({
+                "harness": f"hand::{mod}::{fn}", "fn": fn, "family": "hand:" + mod, "props": props, "N": n,
+                "unwind": unwinds[fn], "timeout_s": int(kv.get("timeout", 600)), "error_type": kv.get("err", "Cheap"),
+                "shape": meta["shape"],
+                "symbolic": {"params": meta["symbolic"], "input": kv.get("input", f"[u8; {n}] with symbolic length 0..={n}")},
+                "assumptions": [f"input length <= {n}"] + meta["assume"], "perms": [0], "sampled": False,
+                "aims": meta["aims"], "notes": "", "expect_fail": kv.get("expect_fail") == "1", "finding": kv.get("finding"),
+            })
+    return out
+
+
+if __name__ == "__main__":
+    for e in entries():
+        print(e["harness"], e["props"], e["unwind"])
